@@ -156,3 +156,68 @@ for _k in ('uni', 'cheb'):
         def u3(U):
             _p2i_unit(U, k)
     _mk()
+
+
+# ----------------------------------------------------------------------------------------------
+# C17: non-power-of-two mode sizes are rejected with ValueError (ind_tt_to_qtt, core_tt_to_qtt)
+
+import ast as _ast
+AXP = T.axioms('pow2', 'pow2r', 'pow2link')
+
+
+def _pow2_gate(U, module, fname, setup, stop_names):
+    fn = U.func(module, fname)
+
+    def stop(stmt):
+        return isinstance(stmt, _ast.Assign) and isinstance(stmt.targets[0], _ast.Name) and stmt.targets[0].id in stop_names
+
+    if not any(stop(s_) for s_ in fn.body):
+        raise M.ContractMismatch(f'{fname}: the statement after the power-of-two check ({stop_names}) is gone')
+    ex = U.executor(fn, axioms=AXP, stop_at=stop)
+    st = U.state()
+    n = z3.Int('n')
+    setup(ex, st, n)
+    res = U.run(ex, st, pre=[n >= 1])
+    U.cover('precondition-satisfiable', U.pre, axioms=AXP)
+    k = z3.Int('k')
+    for p, o in res:
+        qs = [Z(v) for nm, v in p.vars.items() if nm in ('q', 'd') and M.is_intsort(v) and not isinstance(v, int)]
+        hints = []
+        for f in qs:
+            # instances of the log2 / pow2 axioms at the exponent computed by the code and at a candidate exponent k
+            for j in (f, f + 1, k, k + 1):
+                rj = z3.ToReal(j)
+                hints += [z3.Implies(j >= 0, T.pow2r(rj) == z3.ToReal(T.pow2(j))),
+                          (rj <= T.log2(z3.ToReal(n))) == (T.pow2r(rj) <= z3.ToReal(n)), T.pow2r(rj) > 0]
+            hints += [T.pow2(f + 1) == 2 * T.pow2(f), T.pow2(k + 1) == 2 * T.pow2(k), T.pow2(k) >= 1]
+        if o.kind == 'raise':
+            U.raise_iff('rejects-only-non-powers-of-two', p, z3.Implies(k >= 0, n != T.pow2(k)), axioms=AXP, extra=hints)
+            U.raise_iff('raises-ValueError', p, o.exc == 'ValueError')
+        elif o.kind == 'stop':
+            q = [v for nm, v in p.vars.items() if nm in ('q', 'd') and M.is_intsort(v) and not isinstance(v, int)]
+            U.raise_iff('accepts-only-powers-of-two', p, z3.Or([z3.And(Z(x) >= 0, n == T.pow2(Z(x))) for x in q]) if q else False,
+                        axioms=AXP, extra=hints)
+        else:
+            U.post('gate-ends-before-the-conversion', p, False)
+    U.canary('canary-accepts-everything', U.pre, False, axioms=AXP)
+
+
+@unit('grid.ind_tt_to_qtt.gate', props=('C17',))
+def u_gate_ind(U):
+    def setup(ex, st, n):
+        m_, d_ = z3.Ints('m d')
+        I = VArr((m_, d_), None, None, 'i')
+        ex.callees['grid.grid_prep_opt'] = lambda ex_, s_, a, k, nd: a[0]
+        st.vars.update(I=I, n=n)
+        st.assume(m_ >= 1, d_ >= 1)
+    _pow2_gate(U, 'grid', 'ind_tt_to_qtt', setup, ('I_qtt',))
+
+
+@unit('core.core_tt_to_qtt.gate', props=('C17',))
+def u_gate_core(U):
+    def setup(ex, st, n):
+        r1, r2 = z3.Ints('r1 r2')
+        t = z3.Const('G', T.Core)
+        st.assume(T.d0(t) == r1, T.d1(t) == n, T.d2(t) == r2, r1 >= 1, r2 >= 1)
+        st.vars.update(G=VArr((r1, n, r2), t, 'core'), e=z3.Real('e'), r=z3.Real('r'))
+    _pow2_gate(U, 'core', 'core_tt_to_qtt', setup, ('A',))
